@@ -552,6 +552,29 @@ class _NoMem:
     accesses = ()
 
 
+def _lane_local(t, i, vec_args, argspecs):
+    """every bit of a vector argument that t mentions belongs to lane i (only then may two lanes be identified
+    by renaming: a term that also reads other lanes - or the whole argument - is a different function of the
+    inputs in every lane even when the renamed text coincides)"""
+    for lf in T.leaves(t, ("arg",)):
+        k = lf[2]
+        if k in vec_args:
+            lb = argspecs[k][1]
+            if not (i * lb <= lf[3] and lf[3] + lf[1] <= (i + 1) * lb):
+                return False
+    return True
+
+
+def _lane_key(i, ta, te, nl, vec_args, argspecs):
+    """key under which lanes with the same form up to lane renaming are decided once"""
+    if not i:
+        return (id(ta), id(te)) if (_lane_local(ta, 0, vec_args, argspecs) and _lane_local(te, 0, vec_args, argspecs)) else ("lane", 0, id(ta), id(te))
+    if i >= nl or not (_lane_local(ta, i, vec_args, argspecs) and _lane_local(te, i, vec_args, argspecs)):
+        return ("lane", i, id(ta), id(te))
+    shift = {k: i * argspecs[k][1] for k in vec_args}
+    return (id(_rebase(ta, shift, vec_args, {})), id(_rebase(te, shift, vec_args, {})))
+
+
 def _rebase(t, shift, vec_args, memo):
     """rename lane-i argument bits to lane 0 (subtract shift from the bit offsets of vector arguments)"""
     if not isinstance(t, tuple):
@@ -588,8 +611,7 @@ def exhaustive_lanes(actual, expected, argspecs, names, lane_bits, env_ok=None, 
         te = T.slice_(expected, i * lane_bits, lane_bits)
         if ta is te:
             continue
-        shift = {k: (i * argspecs[k][1] if i < nl else 0) for k in vec_args}
-        key = (id(_rebase(ta, shift, vec_args, {})), id(_rebase(te, shift, vec_args, {}))) if i else (id(ta), id(te))
+        key = _lane_key(i, ta, te, nl, vec_args, argspecs)
         if key in done:
             continue
         bitsused = {}
@@ -709,10 +731,7 @@ def bdd_lanes(actual, expected, argspecs, names, lane_bits, env_ok=None):
     vec_args = {k for k, (b, l_, d) in enumerate(argspecs) if l_ and b // l_ == nl and nl > 1}
 
     def rebase(i, ta, te):
-        if not i:
-            return (id(ta), id(te))
-        shift = {k: (i * argspecs[k][1] if i < nl else 0) for k in vec_args}
-        return (id(_rebase(ta, shift, vec_args, {})), id(_rebase(te, shift, vec_args, {})))
+        return _lane_key(i, ta, te, nl, vec_args, argspecs)
     v, info = bdd.decide(actual, expected, argspecs, lb, nlanes, rebase, max_nodes=BDD_NODES[0])
     if v != "REFUTED":
         return v, info
@@ -821,8 +840,7 @@ def absint_lanes(actual, expected, argspecs, lane_bits, nlanes=None):
         te = T.slice_(expected, i * lane_bits, lane_bits)
         if ta is te:
             continue
-        shift = {k: (i * argspecs[k][1] if i < nl else 0) for k in vec_args}
-        key = (id(_rebase(ta, shift, vec_args, {})), id(_rebase(te, shift, vec_args, {}))) if i else (id(ta), id(te))
+        key = _lane_key(i, ta, te, nl, vec_args, argspecs)
         if key in done:
             continue
         used = {}
